@@ -155,14 +155,21 @@ class _Canon(ast.NodeTransformer):
 
     _NEGATIVE = {ast.NotEq: ast.Eq, ast.IsNot: ast.Is, ast.NotIn: ast.In}
 
+    def _negativity(self, t):
+        """(number of negative atoms, 0 for and / 1 for or, text): the smaller of a test and its negation is kept"""
+        neg = sum(1 for x in ast.walk(t) if (isinstance(x, ast.UnaryOp) and isinstance(x.op, ast.Not))
+                  or (isinstance(x, ast.Compare) and len(x.ops) == 1 and type(x.ops[0]) in self._NEGATIVE))
+        top = 1 if isinstance(t, ast.BoolOp) and isinstance(t.op, ast.Or) else 0
+        return (neg, top, ast.unparse(t))
+
     def _positive_test(self, node):
-        """two-armed branch: strip a leading `not` / turn `!=`, `is not`, `not in` into the positive form and swap the arms"""
+        """two-armed branch: of the test and its negation (negation normal form) the one with fewer negative atoms is kept
+        (ties: conjunction before disjunction, then text order) and the arms are swapped accordingly - `if not c: A else: B`,
+        `if a != b: A else: B` and `if not a or not b: A else: B` all become the positive spelling with B first"""
         t = node.test
-        if isinstance(t, ast.UnaryOp) and isinstance(t.op, ast.Not):
-            node.test, node.body, node.orelse = t.operand, node.orelse, node.body
-        elif isinstance(t, ast.Compare) and len(t.ops) == 1 and type(t.ops[0]) in self._NEGATIVE:
-            pos = ast.copy_location(ast.Compare(left=t.left, ops=[self._NEGATIVE[type(t.ops[0])]()], comparators=t.comparators), t)
-            node.test, node.body, node.orelse = pos, node.orelse, node.body
+        n = self._neg(t)
+        if self._negativity(n) < self._negativity(t):
+            node.test, node.body, node.orelse = ast.copy_location(n, t), node.orelse, node.body
         return node
 
     def visit_If(self, node):
@@ -291,13 +298,13 @@ class _CanonStmts(ast.NodeTransformer):
                 return
 
     def visit_For(self, node):
+        self.generic_visit(node)      # first: temporaries of the body's tests are folded
         self._continue_guards(node)
-        self.generic_visit(node)
         return node
 
     def visit_While(self, node):
-        self._continue_guards(node)
         self.generic_visit(node)
+        self._continue_guards(node)
         return node
 
     def _loops_to_comprehensions(self, body):
